@@ -277,24 +277,28 @@ func (g *Generator) generateBytesFieldUnmarshal(gf *protogen.GeneratedFile, fiel
 	switch encoding {
 	case http.BytesEncoding_BYTES_ENCODING_HEX:
 		gf.P("decoded, decErr := hex.DecodeString(s)")
-		gf.P("if decErr == nil {")
-		gf.P(`raw["`, jsonName, `"], _ = json.Marshal(base64.StdEncoding.EncodeToString(decoded))`)
+		gf.P("if decErr != nil {")
+		gf.P("return decErr")
 		gf.P("}")
+		gf.P(`raw["`, jsonName, `"], _ = json.Marshal(base64.StdEncoding.EncodeToString(decoded))`)
 	case http.BytesEncoding_BYTES_ENCODING_BASE64_RAW:
 		gf.P("decoded, decErr := base64.RawStdEncoding.DecodeString(s)")
-		gf.P("if decErr == nil {")
-		gf.P(`raw["`, jsonName, `"], _ = json.Marshal(base64.StdEncoding.EncodeToString(decoded))`)
+		gf.P("if decErr != nil {")
+		gf.P("return decErr")
 		gf.P("}")
+		gf.P(`raw["`, jsonName, `"], _ = json.Marshal(base64.StdEncoding.EncodeToString(decoded))`)
 	case http.BytesEncoding_BYTES_ENCODING_BASE64URL:
 		gf.P("decoded, decErr := base64.URLEncoding.DecodeString(s)")
-		gf.P("if decErr == nil {")
-		gf.P(`raw["`, jsonName, `"], _ = json.Marshal(base64.StdEncoding.EncodeToString(decoded))`)
+		gf.P("if decErr != nil {")
+		gf.P("return decErr")
 		gf.P("}")
+		gf.P(`raw["`, jsonName, `"], _ = json.Marshal(base64.StdEncoding.EncodeToString(decoded))`)
 	case http.BytesEncoding_BYTES_ENCODING_BASE64URL_RAW:
 		gf.P("decoded, decErr := base64.RawURLEncoding.DecodeString(s)")
-		gf.P("if decErr == nil {")
-		gf.P(`raw["`, jsonName, `"], _ = json.Marshal(base64.StdEncoding.EncodeToString(decoded))`)
+		gf.P("if decErr != nil {")
+		gf.P("return decErr")
 		gf.P("}")
+		gf.P(`raw["`, jsonName, `"], _ = json.Marshal(base64.StdEncoding.EncodeToString(decoded))`)
 	default:
 		// Should not be reached
 	}
